@@ -138,6 +138,19 @@ mut('C19-list-new-reversed', 'C19', 'internal/seq/list/list.go', "\tfor i := len
 mut('C20-pipe9-extra-call', 'C20', 'internal/pipe/pipe.go', "return func(a A) J { return ij(hi(gh(fg(ef(de(cd(bc(ab(a))))))))) }", "return func(a A) J { ab(a); return ij(hi(gh(fg(ef(de(cd(bc(ab(a))))))))) }")
 mut('C20-pipe5-memo', 'C20', 'internal/pipe/pipe.go', "\treturn func(a A) F { return ef(de(cd(bc(ab(a))))) }", "\tvar done bool\n\tvar memo F\n\treturn func(a A) F {\n\t\tif !done {\n\t\t\tmemo, done = ef(de(cd(bc(ab(a))))), true\n\t\t}\n\t\treturn memo\n\t}", 'result of the first call is cached')
 
+# ---- classes added in DESIGN 10.9: streams of `any`, concurrently alive instances, shared leaf buffers
+mut('C05-take-drops-nil-any', 'C05', P, "\t\tvar a A\n\t\tfor a = range in {\n\n\t\t\tselect {\n\t\t\tcase out <- a:", "\t\tvar a A\n\t\tfor a = range in {\n\t\t\tif any(a) == nil {\n\t\t\t\tcontinue\n\t\t\t}\n\n\t\t\tselect {\n\t\t\tcase out <- a:", 'Take treats the nil interface as "no element"')
+mut('C12-join-drops-nil-any', 'C12', P, "\t\tfor x := range c {\n\t\t\tselect {\n\t\t\tcase out <- x:", "\t\tfor x := range c {\n\t\t\tif any(x) == nil {\n\t\t\t\tcontinue\n\t\t\t}\n\t\t\tselect {\n\t\t\tcase out <- x:", 'Join drops nil-interface elements')
+mut('C08-pump-drops-nil-any', 'C08', U, "\t\t\t\t\tflush()\n\t\t\t\t\treturn\n\t\t\t\t}\n\t\t\t\tenq(&x, mq)", "\t\t\t\t\tflush()\n\t\t\t\t\treturn\n\t\t\t\t}\n\t\t\t\tif any(x) == nil {\n\t\t\t\t\tcontinue\n\t\t\t\t}\n\t\t\t\tenq(&x, mq)", 'the pump drops nil-interface values')
+mut('C09-map-drops-nil-result', 'C09', FK, "\t\t\tselect {\n\t\t\tcase out <- val:\n\t\t\tcase <-ctx.Done():\n\t\t\t\treturn\n\t\t\t}\n\t\t}\n\t}\n\n\twg.Add(par)", "\t\t\tif any(val) == nil {\n\t\t\t\tcontinue\n\t\t\t}\n\t\t\tselect {\n\t\t\tcase out <- val:\n\t\t\tcase <-ctx.Done():\n\t\t\t\treturn\n\t\t\t}\n\t\t}\n\t}\n\n\twg.Add(par)", 'fork.Map drops nil-interface results')
+TAKE = "func Take[A any](ctx context.Context, in <-chan A, n int) <-chan A {\n\tout := make(chan A, cap(in))\n\n\tgo func() {\n\t\tdefer close(out)\n\n\t\tif n <= 0 {\n\t\t\treturn\n\t\t}\n\n\t\tvar a A\n\t\tfor a = range in {\n\n\t\t\tselect {\n\t\t\tcase out <- a:\n\t\t\tcase <-ctx.Done():\n\t\t\t\treturn\n\t\t\t}\n\n\t\t\tn--\n\t\t\tif n == 0 {\n\t\t\t\treturn\n\t\t\t}\n"
+mut('C05-take-singleton-counter', 'C05', P, TAKE, "var (\n\ttakeMu   sync.Mutex\n\ttakeLeft int\n)\n\n" + TAKE.replace("\tgo func() {\n\t\tdefer close(out)\n\n\t\tif n <= 0 {", "\ttakeMu.Lock()\n\ttakeLeft = n\n\ttakeMu.Unlock()\n\n\tgo func() {\n\t\tdefer close(out)\n\n\t\tif n <= 0 {").replace("\t\t\tn--\n\t\t\tif n == 0 {", "\t\t\ttakeMu.Lock()\n\t\t\ttakeLeft--\n\t\t\tn = takeLeft\n\t\t\ttakeMu.Unlock()\n\t\t\tif n <= 0 {"), 'the countdown lives in a package-level variable: correct for one Take at a time')
+JOIN = "func Join[A any](ctx context.Context, in ...<-chan A) <-chan A {\n\tvar wg sync.WaitGroup\n\tout := make(chan A, len(in))\n\n\tjoin := func(c <-chan A) {\n\t\tdefer wg.Done()\n\n\t\tfor x := range c {\n\t\t\tselect {\n\t\t\tcase out <- x:\n\t\t\tcase <-ctx.Done():\n\t\t\t\treturn\n\t\t\t}\n\t\t}\n\t}\n\n\twg.Add(len(in))\n\tfor _, c := range in {\n\t\tgo join(c)\n\t}\n\n\tgo func() {\n\t\twg.Wait()\n\t\tclose(out)\n\t}()\n\n\treturn out\n}"
+mut('C12-join-global-live-count', 'C12', P, JOIN, "var (\n\tjoinMu   sync.Mutex\n\tjoinLive int\n)\n\nfunc Join[A any](ctx context.Context, in ...<-chan A) <-chan A {\n\tout := make(chan A, len(in))\n\tif len(in) == 0 {\n\t\tclose(out)\n\t\treturn out\n\t}\n\n\tjoin := func(c <-chan A) {\n\t\tdefer func() {\n\t\t\tjoinMu.Lock()\n\t\t\tjoinLive--\n\t\t\tlast := joinLive == 0\n\t\t\tjoinMu.Unlock()\n\t\t\tif last {\n\t\t\t\tclose(out)\n\t\t\t}\n\t\t}()\n\n\t\tfor x := range c {\n\t\t\tselect {\n\t\t\tcase out <- x:\n\t\t\tcase <-ctx.Done():\n\t\t\t\treturn\n\t\t\t}\n\t\t}\n\t}\n\n\tjoinMu.Lock()\n\tjoinLive += len(in)\n\tjoinMu.Unlock()\n\tfor _, c := range in {\n\t\tgo join(c)\n\t}\n\n\treturn out\n}", 'the last copier closes the output, counted in a package-level variable: correct for one Join at a time')
+mut('C14-fromslice-clears-consumed', 'C14', SQ, "\ts.el = s.el[1:]\n\treturn true", "\tvar zero T\n\ts.el[0] = zero\n\ts.el = s.el[1:]\n\treturn true", "consumed slots of the caller's slice are zeroed")
+mut('C08-queue-singleton-per-type', 'C08', Q, "func newq[A any]() *queue[A] {\n\tqueue := &queue[A]{}\n\tqueue.pool.New = func() interface{} { return &q[A]{} }\n\treturn queue\n}", "var queues sync.Map\n\nfunc newq[A any]() *queue[A] {\n\tkey := any((*A)(nil))\n\tif v, ok := queues.Load(key); ok {\n\t\treturn v.(*queue[A])\n\t}\n\tqueue := &queue[A]{}\n\tqueue.pool.New = func() interface{} { return &q[A]{} }\n\tqueues.Store(key, queue)\n\treturn queue\n}", 'one queue per element type, reused by every pipe of that type: correct while one pipe of a type is alive at a time')
+mut('C09-map-global-live-count', 'C09', FK, "\twg.Add(par)\n\tfor i := 1; i <= par; i++ {\n\t\tgo pmap()\n\t}\n\n\tgo func() {\n\t\twg.Wait()\n\t\tclose(out)\n\t\tclose(exx)\n\t}()\n\n\treturn out, exx\n}\n\n// Partition", "\twg.Add(par)\n\tmapLiveMu.Lock()\n\tmapLive++\n\tmapLiveMu.Unlock()\n\tfor i := 1; i <= par; i++ {\n\t\tgo pmap()\n\t}\n\n\tgo func() {\n\t\twg.Wait()\n\t\tmapLiveMu.Lock()\n\t\tmapLive--\n\t\tlast := mapLive == 0\n\t\tmapLiveMu.Unlock()\n\t\tif last {\n\t\t\tclose(out)\n\t\t\tclose(exx)\n\t\t}\n\t}()\n\n\treturn out, exx\n}\n\nvar (\n\tmapLiveMu sync.Mutex\n\tmapLive   int\n)\n\n// Partition", 'only the last fork.Map alive closes its channels')
+
 EQUIVALENT = {'C02-no-container-check', 'C04-codec-get-skips-fmap', 'C06-throttle-data-no-ctx', 'C15-map-stale-key', 'C05-filter-or', 'C05-partition-swapped-capacity', 'C10-empty-counted-per-worker', 'C14-foreach-swallows-last-error', 'C19-slice-cons-append', 'C04-setter-get-leaks'}
 
 
